@@ -174,17 +174,42 @@ def body_eq(case, ctx):
         raise Violation("eq:value", expected=expect, got=got.brief(), mode=mode)
 
 
+_TARGETS = {}
+
+
+def target_cls(names):
+    """a narrower dataclass declaring the given fields in the given order"""
+    key = tuple(names)
+    if key not in _TARGETS:
+        from npstructures import npdataclass
+        ns = {"__annotations__": {n: np.ndarray for n in names}}
+        _TARGETS[key] = npdataclass(type("N_" + "".join(names), (), ns))
+    return _TARGETS[key]
+
+
 def body_astype(case, ctx):
     fs = field_arrays(case["fields"], case["n"])
     k = len(fs)
-    k2 = 1 + case["k2"] % (k - 1)
-    ctx.label("from:%d" % k, "to:%d" % k2)
-    ctx.nt()
+    order = []
+    for i in case["order"]:
+        if NAMES[i % k] not in order:
+            order.append(NAMES[i % k])
+    if len(order) == k and order == list(NAMES[:k]):
+        order = order[:-1]
+    ctx.label("from:%d" % k, "to:%d" % len(order), "same-order" if order == sorted(order) else "reordered")
+    ctx.nt(order != sorted(order) or len(order) >= 2)
     obj = cls(k)(*[f.copy() for f in fs])
-    got = lib(lambda: obj.astype(cls(k2)))
-    expect_fields(got, fs[:k2], "astype")
-    if not isinstance(got.value, cls(k2)):
-        raise Violation("astype:class", got=repr(type(got.value)))
+    T = target_cls(order)
+    got = lib(lambda: obj.astype(T))
+    if not got.ok:
+        raise Violation("astype:unexpected-refusal", got=got.brief(), target=order)
+    for name in order:
+        g = np.asarray(getattr(got.value, name))
+        e = fs[NAMES.index(name)]
+        if g.shape != e.shape or not arrays_equal(g, e) or (e.size and g.dtype != e.dtype):
+            raise Violation("astype:field", field=name, target=order, expected=jsonable(e), got=jsonable(g))
+    if not isinstance(got.value, T) or len(got.value) != case["n"]:
+        raise Violation("astype:class-or-len", got=repr(type(got.value)))
 
 
 def body_varlen(case, ctx):
@@ -260,7 +285,7 @@ def eq_case(draw, tier):
 @st.composite
 def astype_case(draw, tier):
     fields, n = draw(fields_st(min_k=2))
-    return {"fields": fields, "n": n, "k2": draw(st.integers(0, 5))}
+    return {"fields": fields, "n": n, "order": draw(st.lists(st.integers(0, 3), min_size=1, max_size=4))}
 
 
 @st.composite
